@@ -59,7 +59,24 @@ static void euler(const IV & r, const IV & p, const IV & y, double turnsR, doubl
   .mat("back", back).mat("qback", qback);
   bool hasRs = sizeof(S) == 8;
   IM Rs(3, IV(3, 0));
-  if (hasRs) {SmartRotation3D sr((double)ang[0], (double)ang[1], (double)ang[2]); Rs = projMat<S>(sr.R(), 3, D, ok);}
+  if (hasRs) {
+    // the helper is a fresh object, or a long-lived one (or a copy of it) re-initialised from a state that shares one or two of
+    // the three angles bit for bit with the new ones: what it reports depends on the angles it was last given only
+    static SmartRotation3D live;
+    static long long count = 0;
+    const long long c = count++;
+    const double a0 = (double)ang[0], a1 = (double)ang[1], a2 = (double)ang[2];
+    if (c % 4 == 0) {SmartRotation3D sr(a0, a1, a2); Rs = projMat<S>(sr.R(), 3, D, ok);}
+    else {
+      const int keep = (int)((c / 4) % 7);                      // bit i set: angle i keeps its value across the re-initialisation
+      const double b0 = (keep & 1) ? a0 : a0 + 0.37, b1 = (keep & 2) ? a1 : (a1 > 0 ? a1 - 0.21 : a1 + 0.21), b2 = (keep & 4) ? a2 : a2 - 0.53;
+      live.init(b0, b1, b2);
+      volatile double sink = live.R()(0, 0) + live.dRdAngleAroundXAxis()(1, 1); (void)sink;
+      if (c % 4 == 1) {live.init(a0, a1, a2); Rs = projMat<S>(live.R(), 3, D, ok);}
+      else if (c % 4 == 2) {live.init(Eigen::Vector3d(a0, a1, a2)); Rs = projMat<S>(live.R(), 3, D, ok);}
+      else {SmartRotation3D cp(live); cp.init(a0, a1, a2); Rs = projMat<S>(cp.R(), 3, D, ok);}
+    }
+  }
   e.b("hasRs", hasRs).mat("Rs", Rs).b("ex", ok);
   out.put(e);
 }
@@ -204,6 +221,11 @@ static void generic(vh::Rng & r, vh::Out & out)
   bool inRange = true;
   double roll = u() * 2 * M_PI * 0.999, pitch = u() * (M_PI / 2 - 1e-3), yaw = u() * 2 * M_PI * 0.999;
   if (r.coin(1, 6)) {pitch = (r.coin() ? 1 : -1) * (M_PI / 2 - 1e-3);}                      // the edge of the quantified pitch range
+  else if (r.coin(1, 4)) {
+    // small angles (increments, milliradians and below): each angle has its own magnitude between 1e-7 and 0.1 rad, or is zero
+    auto small = [&]() {return r.coin(1, 5) ? 0.0 : (r.coin() ? 1 : -1) * std::pow(10.0, -7 + 6 * std::fabs(u()));};
+    roll = small(); pitch = small(); yaw = small();
+  }
   V3 ang((S)roll, (S)pitch, (S)yaw);
   roll = (double)ang[0]; pitch = (double)ang[1]; yaw = (double)ang[2];
   Eigen::Matrix3d ref;
